@@ -172,7 +172,7 @@ class StmtMixin:
                 out.append((s2, Outcome(NORMAL)))
                 continue
             if isinstance(cur, VList) and isinstance(s.op, ast.Add) and isinstance(oc.value, VList):
-                cur.items.extend(oc.value.items)
+                self.writable(s2, cur, s.lineno).items.extend(oc.value.items)
                 out.append((s2, Outcome(NORMAL)))
                 continue
             new = self.arith(s.op, cur, oc.value, s2, s.lineno)
@@ -224,12 +224,12 @@ class StmtMixin:
             if isinstance(base, VDict):
                 k = self.ev(t.slice, st)
                 if isinstance(k, VStr) and k.s is not None:
-                    base.d[k.s] = v
+                    self.writable(st, base, line).d[k.s] = v
                     return
             if isinstance(base, VList):
                 c = smt.conc_int(self.to_int(self.ev(t.slice, st), line))
                 if c is not None:
-                    base.items[c] = v
+                    self.writable(st, base, line).items[c] = v
                     return
             raise OutOfSubset(f"line {line}: store into {base!r}")
         if isinstance(t, ast.Attribute):
